@@ -110,6 +110,8 @@ def c20(tier):
     ts.run_c20(P, C)
     nl.nl1(P, C)
     nl.nl2(P, C)
+    # invalid arguments of convolve are refused before anything is read or changed
+    uw.vg4(P, C)
     # a FITS handle opened by a failed operation is closed on every path (all memory *and* handles are returned)
     ed.rh1(P, C)
     C.extra["units"] = sorted(P.units.keys())
@@ -334,6 +336,7 @@ def c14(tier):
     uw.uw1(P, C)
     uw.uw2(P, C)
     uw.uw4(P, C)
+    uw.vg4(P, C)
     ts.ts2(P, C, only=("convolve",), rule_floor=1)
     cw.cw1(P, C, only=("splinetable_convolve",))
     C.extra["units"] = sorted(P.units.keys())
